@@ -132,4 +132,81 @@ mod __verif_kani {
         let (rm, rt) = ref_max_excess_rev(x, 64);
         assert!(m as i64 == rm && t as i64 == rt);
     }
+
+    // ---------------------------------------------------------------- bounded whole-structure twins (C04)
+    fn bitw(w: &[u64], i: usize) -> bool { (w[i / 64] >> (i % 64)) & 1 == 1 }
+    /// definition: matching close of the open at p = first q > p with excess(p..=q) == 0
+    fn naive_find_close(w: &[u64], len: usize, p: usize) -> Option<usize> {
+        if p >= len || !bitw(w, p) { return None; }
+        let mut e = 0i32; let mut q = p;
+        while q < len { if bitw(w, q) { e += 1; } else { e -= 1; if e == 0 { return Some(q); } } q += 1; }
+        None
+    }
+    fn naive_find_open(w: &[u64], len: usize, p: usize) -> Option<usize> {
+        if p >= len || bitw(w, p) { return None; }
+        let mut e = 0i32; let mut q = p + 1;
+        while q > 0 { q -= 1; if bitw(w, q) { e += 1; if e == 0 { return Some(q); } } else { e -= 1; } }
+        None
+    }
+    fn naive_enclose(w: &[u64], len: usize, p: usize) -> Option<usize> {
+        if p >= len || !bitw(w, p) { return None; }
+        let mut e = 0i32; let mut q = p;
+        while q > 0 { q -= 1; if bitw(w, q) { e += 1; if e == 1 { return Some(q); } } else { e -= 1; } }
+        None
+    }
+    fn naive_rank1(w: &[u64], len: usize, p: usize) -> usize {
+        let n = if p < len { p } else { len };
+        let mut c = 0; let mut i = 0;
+        while i < n { if bitw(w, i) { c += 1; } i += 1; }
+        c
+    }
+
+    macro_rules! word_fast_case {
+        ($name:ident, $start:expr, $valid:expr) => {
+            #[kani::proof]
+            #[kani::unwind(66)]
+            pub fn $name() {
+                let x: u64 = kani::any();
+                let init: i32 = kani::any();
+                kani::assume(init >= -1 && init <= 70);
+                let r = find_close_in_word_fast(x, $start, init, $valid);
+                if $start >= $valid || init <= 0 { assert!(r.is_none()); }
+                else {
+                    let q = ref_scan_to(x, $start as u32, $valid as u32, init as i64, 0);
+                    if q < $valid as u32 { assert!(r == Some(q as usize)); } else { assert!(r.is_none()); }
+                }
+            }
+        };
+    }
+    //@ kind=B props=C04 bound=start=0,valid_bits=64,excess_in_-1..=70 fn=find_close_in_word_fast : all words, start 0, a full word: first position where the excess (starting from initial_excess) reaches 0, None if none / initial_excess <= 0
+    word_fast_case!(c04_find_close_in_word_fast_0_64, 0usize, 64usize);
+    //@ kind=B props=C04 bound=start=0,valid_bits=9 fn=find_close_in_word_fast : final partial word with a partial last byte: bits at or past valid_bits never produce a match
+    word_fast_case!(c04_find_close_in_word_fast_0_9, 0usize, 9usize);
+    //@ kind=B props=C04 bound=start=3,valid_bits=13 fn=find_close_in_word_fast : unaligned start and unaligned end inside the second byte
+    word_fast_case!(c04_find_close_in_word_fast_3_13, 3usize, 13usize);
+    //@ kind=B props=C04 bound=start=13,valid_bits=64 fn=find_close_in_word_fast : unaligned start, full word
+    word_fast_case!(c04_find_close_in_word_fast_13_64, 13usize, 64usize);
+    //@ kind=B props=C04 bound=start=58,valid_bits=62 fn=find_close_in_word_fast : start and end inside the last byte
+    word_fast_case!(c04_find_close_in_word_fast_58_62, 58usize, 62usize);
+
+    //@ kind=B props=C04 tier=thorough bound=2_words,len=100 fn=BalancedParens::{new,find_close,find_open,enclose,rank1,rank0,excess,select0,first_child,next_sibling,subtree_size,depth} : 2 symbolic words (balanced or not), len = 100, symbolic position: every navigation answer equals the left-to-right / right-to-left excess-scan definition over the first len bits; stray bits past len are ignored
+    #[kani::proof]
+    #[kani::unwind(104)]
+    pub fn c04_bp_small_navigation() {
+        let w: [u64; 2] = kani::any();
+        let len = 100usize;
+        let bp = BalancedParens::new(vec![w[0], w[1]], len);
+        let p: usize = kani::any();
+        kani::assume(p <= len + 1);
+        assert!(bp.find_close(p) == naive_find_close(&w, len, p));
+        assert!(bp.find_open(p) == naive_find_open(&w, len, p));
+        assert!(bp.enclose(p) == naive_enclose(&w, len, p));
+        assert!(bp.rank1(p) == naive_rank1(&w, len, p));
+        let m = if p < len { p } else { len };
+        assert!(bp.rank0(p) == m - naive_rank1(&w, len, p));
+        let fc = naive_find_close(&w, len, p);
+        assert!(bp.subtree_size(p) == fc.map(|c| (c - p) / 2));
+        assert!(bp.next_sibling(p) == match fc { Some(c) if c + 1 < len && bitw(&w, c + 1) => Some(c + 1), _ => None });
+        assert!(bp.first_child(p) == if p + 1 < len && bitw(&w, p) && bitw(&w, p + 1) { Some(p + 1) } else { None });
+    }
 }
